@@ -220,6 +220,10 @@ Theorem C06_cname_via_upstream :
   forall (sort : list entry -> list entry) upstream enabled tbl qname qt r,
     check_host sort enabled tbl qname qt = Some r ->
     r_reason r = Rewritten -> r_canon r <> [] -> r_ips r = [] ->
+    (* Result.CanonNameRewritten is not set: the canonical name is outside
+       the table (C06_cname_outside_table_via_upstream), or covered by the
+       canonical-name entry that ended the chase (#4016, a cycle) *)
+    covered_flag sort enabled tbl qname qt = false ->
     respond sort upstream enabled tbl qname qt =
       Some {| rp_qname := qname; rp_rcode := fst (upstream (r_canon r) qt);
               rp_answer := RR_CNAME qname (r_canon r) :: snd (upstream (r_canon r) qt);
@@ -334,6 +338,7 @@ Theorem C06_cname_via_upstream_negative :
   forall (sort : list entry -> list entry) upstream enabled tbl qname qt r rc ans,
     check_host sort enabled tbl qname qt = Some r ->
     r_reason r = Rewritten -> r_canon r <> [] -> r_ips r = [] ->
+    covered_flag sort enabled tbl qname qt = false ->
     upstream (r_canon r) qt = (rc, ans) ->
     respond sort upstream enabled tbl qname qt =
       Some {| rp_qname := qname; rp_rcode := rc;
@@ -679,7 +684,7 @@ Theorem C06_cache_cname_reply :
     run_c sort upstream enabled tbl [] qs = Some (c, os) ->
   forall qname qt r c' f p,
     check_host sort enabled tbl qname qt = Some r -> r_reason r = Rewritten ->
-    r_canon r <> [] -> r_ips r = [] ->
+    r_canon r <> [] -> r_ips r = [] -> covered_flag sort enabled tbl qname qt = false ->
     respond_c sort upstream enabled tbl c qname qt = Some (c', (f, p)) ->
     rp_qname p = qname /\
     exists asked', to_lower asked' = to_lower (r_canon r) /\
@@ -753,36 +758,111 @@ Proof.
 Qed.
 Print Assumptions C06_cache_example.
 
-(** * Round 4, found on the unchanged code (reported to the lead; draft
+(** * Round 4: a canonical name that the table covers without a value
+    (found on the code as it was, repaired in /repo by 2e58a5d, draft
     notes/fix-drafts/27-C06-cname-to-covered-name-asks-upstream.patch)
 
-    "A name matched by the table but without a value for the requested type
-    gets an empty successful answer, not the upstream's" does NOT hold for a
-    name reached through a canonical-name entry: the model, faithful to
-    filterDNSRequest / isRewrittenCNAME, resolves the canonical name
-    upstream although the table covers it.  Witness: AGHTechDoc's "Example:
-    CNAME+A records" (sub.host.com -> host.com, host.com -> 1.2.3.4), AAAA
-    query for sub.host.com, upstream with an AAAA record for host.com: the
-    document says "AAAA: CNAME = host.com", the answer also carries the
-    upstream's AAAA; asked directly host.com AAAA is answered empty. *)
-Theorem C06_cname_to_covered_name_refuted :
-  ~ (forall (upstream : bytes -> N -> N * list rr) tbl qname qt r p,
-      check_host isort true tbl qname qt = Some r -> r_reason r = Rewritten ->
-      r_canon r <> [] -> r_ips r = [] ->
-      process_rewrites isort tbl (r_canon r) qt = Some rewritten_empty ->
-      respond isort upstream true tbl qname qt = Some p ->
-      rp_upstream p = [] /\ rp_answer p = [RR_CNAME qname (r_canon r)]).
-Proof. exact CoveredTarget.covered_target_refuted. Qed.
-Print Assumptions C06_cname_to_covered_name_refuted.
+    Result.CanonNameRewritten as processRewrites computes it
+    ([chase_covered], the loop of [chase] once more) is a function of the
+    canonical name alone: the table covers it and what findRewrites returns
+    for it does not start with a canonical-name entry. *)
+Theorem C06_covered_flag_spec :
+  forall sort enabled tbl host qt r,
+    check_host sort enabled tbl host qt = Some r -> r_reason r = Rewritten -> r_canon r <> [] ->
+    covered_flag sort enabled tbl host qt =
+    covered_after (r_canon r) (fst (find_rewrites sort tbl (r_canon r) qt))
+                              (snd (find_rewrites sort tbl (r_canon r) qt)).
+Proof. exact covered_flag_spec. Qed.
+Print Assumptions C06_covered_flag_spec.
 
-Theorem C06_cname_to_covered_name_witness :
+(** "A name matched by the table but without a value for the requested type
+    gets an empty successful answer, not the upstream's", for a name reached
+    through a canonical-name entry: the table covers the canonical name (by
+    no canonical-name entry) and the chase found no address of the requested
+    type for it; the client gets the CNAME alone, NOERROR, and the upstream
+    is NOT asked.  For any upstream, table, name, type and sort. *)
+Theorem C06_cname_to_covered_name :
+  forall sort, (forall l, Permutation (sort l) l) ->
+  forall (upstream : bytes -> N -> N * list rr) enabled tbl qname qt r,
+    check_host sort enabled tbl qname qt = Some r ->
+    r_reason r = Rewritten -> r_canon r <> [] -> r_ips r = [] ->
+    (exists e, In e tbl /\ matches_host e (r_canon r) = true) ->
+    (forall e, In e tbl -> matches_host e (r_canon r) = true -> is_cname e = false) ->
+    respond sort upstream enabled tbl qname qt =
+      Some {| rp_qname := qname; rp_rcode := 0;
+              rp_answer := [RR_CNAME qname (r_canon r)]; rp_upstream := [] |}.
+Proof. exact cname_to_covered_name. Qed.
+Print Assumptions C06_cname_to_covered_name.
+
+Theorem C06_cname_to_covered_name_failing_upstream :
+  forall sort, (forall l, Permutation (sort l) l) ->
+  forall (upstream : bytes -> N -> option (N * list rr)) enabled tbl qname qt r,
+    check_host sort enabled tbl qname qt = Some r ->
+    r_reason r = Rewritten -> r_canon r <> [] -> r_ips r = [] ->
+    (exists e, In e tbl /\ matches_host e (r_canon r) = true) ->
+    (forall e, In e tbl -> matches_host e (r_canon r) = true -> is_cname e = false) ->
+    respond_e sort upstream enabled tbl qname qt =
+      Some (false, {| rp_qname := qname; rp_rcode := 0;
+                      rp_answer := [RR_CNAME qname (r_canon r)]; rp_upstream := [] |}).
+Proof. exact cname_to_covered_name_e. Qed.
+Print Assumptions C06_cname_to_covered_name_failing_upstream.
+
+(** A canonical name OUTSIDE the table is resolved upstream (the documented
+    "Example: CNAME record"). *)
+Theorem C06_cname_outside_table_via_upstream :
+  forall sort (upstream : bytes -> N -> N * list rr) enabled tbl qname qt r,
+    check_host sort enabled tbl qname qt = Some r ->
+    r_reason r = Rewritten -> r_canon r <> [] -> r_ips r = [] ->
+    (forall e, In e tbl -> matches_host e (r_canon r) = false) ->
+    respond sort upstream enabled tbl qname qt =
+      Some {| rp_qname := qname; rp_rcode := fst (upstream (r_canon r) qt);
+              rp_answer := RR_CNAME qname (r_canon r) :: snd (upstream (r_canon r) qt);
+              rp_upstream := [(r_canon r, qt)] |}.
+Proof. exact cname_outside_table_via_upstream. Qed.
+Print Assumptions C06_cname_outside_table_via_upstream.
+
+(** By computation: AGHTechDoc "Example: CNAME+A records" (AAAA: CNAME =
+    host.com) with an upstream that has an AAAA record for host.com; "pass
+    AAAA only" reached through a canonical name; and the two cases that stay
+    as the code has them: `*.issue4016.com -> sub.issue4016.com` (#4016: the
+    canonical name is covered by that very entry) and a cycle are resolved
+    upstream. *)
+Theorem C06_cname_to_covered_name_examples :
   respond isort CoveredTarget.up6 true DocExamples.t4 (bs "host.com") qAAAA =
     Some {| rp_qname := bs "host.com"; rp_rcode := 0; rp_answer := []; rp_upstream := [] |} /\
   respond isort CoveredTarget.up6 true DocExamples.t4 (bs "sub.host.com") qAAAA =
     Some {| rp_qname := bs "sub.host.com"; rp_rcode := 0;
-            rp_answer := [RR_CNAME (bs "sub.host.com") (bs "host.com"); RR_AAAA (bs "host.com") 9];
-            rp_upstream := [(bs "host.com", qAAAA)] |}.
+            rp_answer := [RR_CNAME (bs "sub.host.com") (bs "host.com")]; rp_upstream := [] |} /\
+  respond isort CoveredTarget.up6 true
+          (DocExamples.ent "alias.example" "sub.host4.example" None :: ShadowExamples.tblH)
+          (bs "alias.example") qA =
+    Some {| rp_qname := bs "alias.example"; rp_rcode := 0;
+            rp_answer := [RR_CNAME (bs "alias.example") (bs "sub.host4.example")]; rp_upstream := [] |} /\
+  respond isort CoveredTarget.up6 true [DocExamples.ent "*.issue4016.com" "sub.issue4016.com" None]
+          (bs "www.issue4016.com") qA =
+    Some {| rp_qname := bs "www.issue4016.com"; rp_rcode := 0;
+            rp_answer := [RR_CNAME (bs "www.issue4016.com") (bs "sub.issue4016.com");
+                          RR_A (bs "sub.issue4016.com") 151587081];
+            rp_upstream := [(bs "sub.issue4016.com", qA)] |}.
 Proof.
-  exact (conj CoveredTarget.covered_target_asked_directly CoveredTarget.covered_target_through_cname).
+  exact (conj CoveredTarget.covered_target_asked_directly
+        (conj CoveredTarget.covered_target_through_cname
+        (conj CoveredTarget.pass_aaaa_only_through_cname CoveredTarget.issue_4016_still_upstream))).
 Qed.
-Print Assumptions C06_cname_to_covered_name_witness.
+Print Assumptions C06_cname_to_covered_name_examples.
+
+(** The response assembly BEFORE 2e58a5d ([CoveredTarget.respond_pre]: a
+    canonical name without addresses is always resolved upstream) refutes
+    the statement of C06_cname_to_covered_name: what a revert of the fix
+    restores (recorded as a mutant). *)
+Theorem C06_cname_to_covered_name_pre_fix_refuted :
+  ~ (forall (upstream : bytes -> N -> N * list rr) tbl qname qt r,
+      check_host isort true tbl qname qt = Some r ->
+      r_reason r = Rewritten -> r_canon r <> [] -> r_ips r = [] ->
+      (exists e, In e tbl /\ matches_host e (r_canon r) = true) ->
+      (forall e, In e tbl -> matches_host e (r_canon r) = true -> is_cname e = false) ->
+      CoveredTarget.respond_pre upstream true tbl qname qt =
+        Some {| rp_qname := qname; rp_rcode := 0;
+                rp_answer := [RR_CNAME qname (r_canon r)]; rp_upstream := [] |}).
+Proof. exact CoveredTarget.covered_target_pre_refuted. Qed.
+Print Assumptions C06_cname_to_covered_name_pre_fix_refuted.
